@@ -405,7 +405,7 @@ class IntegerSequence(SequenceBase):
             remainder = (
                 int(self.p_context_stop - self.p_start) % int(self.i_step))
             self.p_stop = (
-                self.p_context_stop - self.i_step +
+                self.p_context_stop -
                 IntegerInterval.from_integer(remainder)
             )
             # if i_step is None here, points will just be None (out of bounds)
